@@ -1558,9 +1558,13 @@ def c14():
     for i, p in enumerate(bases):
         p.cases = cases_for(p, "b%d" % i)
     run_programs(bases, "c14b")
+    # a base program must work on its own: not a listed C05 finding (the complete evaluation of the universe, independent of
+    # the records sampled here) and round-tripping its own files in this run
+    from vlib import load_known
+    c05_bad = {k["key"] for k in load_known() if k.get("property") == "C05"}
     good = []
     for p in bases:
-        if all(written_rows_ok(p, ci) is not None for ci in range(len(p.cases))):
+        if p.key not in c05_bad and all(written_rows_ok(p, ci) is not None for ci in range(len(p.cases))):
             good.append(p)
     ck.cov["base_programs"] = len(good)
     ck.cov["base_programs_skipped_broken_see_C05"] = len(forests) - len(good)
